@@ -111,10 +111,11 @@ def run(ctx, rep):
                       cs.func, cs.node, "a replacement added with execute=False belongs to an already charged trade")
             rep.check(utext(cs.node.args[0]) == "order.trade.id", "R3", key(cs.func, cs.node, "charged with the trade id"),
                       cs.func, cs.node)
-            d = [s for s in walk_nodes(cs.func.node.body, ast.Assign) if utext(s.targets[0]) == recv_text(cs.node)]
-            rep.check(len(d) == 1 and utext(d[0].value) == "order.trade.strategy.get_runner_context(*order.lookup)",
+            from sa.kinds import resolve_local
+            rv = resolve_local(cs.func, cs.node.func.value)   # the receiver, through the local that may name it
+            rep.check(utext(rv) == "order.trade.strategy.get_runner_context(*order.lookup)",
                       "R3", key(cs.func, None, "context of (market, selection, handicap) of the order's strategy"),
-                      cs.func, d[0] if d else None)
+                      cs.func, cs.node)
         else:
             rep.check(utext(cs.node.args[0]) == "trade.id", "R3", key(cs.func, cs.node, "adoption charges the new trade"),
                       cs.func, cs.node)
